@@ -579,6 +579,29 @@ def _sentinel_tests(node):
 
 def check_none_sentinel(ctx, R, classes):
     """contradiction rule (beliefs about one value must agree): see RULES['NONE-SENTINEL']"""
+    # method parameters: an optional *collection* argument (default None, iterated / copied / measured in the method) is absent
+    # only when it is None - an empty selection given explicitly means "nothing", not "everything"
+    for c in classes:
+        for mname, fn in c.methods.items():
+            if mname == '__init__':
+                continue
+            a_ = fn.node.args
+            pos_ = a_.posonlyargs + a_.args
+            opt = {p.arg for p, d in zip(pos_[len(pos_) - len(a_.defaults):], a_.defaults) if isinstance(d, ast.Constant) and d.value is None}
+            opt |= {p.arg for p, d in zip(a_.kwonlyargs, a_.kw_defaults) if isinstance(d, ast.Constant) and d.value is None}
+            if not opt:
+                continue
+            coll = set()
+            for n in own_nodes(fn.node):
+                if isinstance(n, (ast.For, ast.AsyncFor)):
+                    coll |= {x.id for x in ast.walk(n.iter) if isinstance(x, ast.Name) and x.id in opt}
+                if isinstance(n, ast.Call) and isinstance(n.func, ast.Name) and n.func.id in ('list', 'set', 'tuple', 'sorted', 'len') and n.args:
+                    coll |= {x.id for x in ast.walk(n.args[0]) if isinstance(x, ast.Name) and x.id in opt}
+            for nm in sorted(coll):
+                truth = [node for e, style, node in _sentinel_tests(fn.node) if isinstance(e, ast.Name) and e.id == nm and style == 'truth']
+                R.ob('NONE-SENTINEL', ctx.construct(fn), 'param:' + nm, not truth,
+                     'the optional collection argument `%s` (default None) is tested for truthiness: an empty selection given '
+                     'explicitly is treated as absent, i.e. as "all"' % nm, ctx.where(fn, truth[0].lineno) if truth else None)
     for c in classes:
         init = c.methods.get('__init__')
         if init is None:
